@@ -1,0 +1,87 @@
+//go:build verif
+// +build verif
+
+package app
+
+import (
+	"sync"
+	"sync/atomic"
+
+	"github.com/tendermint/tendermint/store"
+
+	"github.com/Oneledger/protocol/config"
+	"github.com/Oneledger/protocol/data/chain"
+)
+
+// Verification hooks (build tag "verif"): let a harness drive the ABCI
+// application without a live Tendermint node. Nothing here is compiled into
+// a normal build.
+
+type verifBoot struct {
+	genesis    *config.GenesisDoc
+	blockStore *store.BlockStore
+}
+
+var (
+	verifBootMu  sync.Mutex
+	verifBoots   = map[*App]*verifBoot{}
+	verifPanicCt int64
+)
+
+// VerifSetBoot registers the genesis document and block store that Prepare()
+// installs instead of creating a consensus node.
+func (app *App) VerifSetBoot(genesis *config.GenesisDoc, bs *store.BlockStore) {
+	verifBootMu.Lock()
+	defer verifBootMu.Unlock()
+	verifBoots[app] = &verifBoot{genesis: genesis, blockStore: bs}
+}
+
+// verifPrepare is called by Prepare() right before the consensus node would be
+// created. It returns true when a boot record was registered for this app.
+func (app *App) verifPrepare() bool {
+	verifBootMu.Lock()
+	b := verifBoots[app]
+	delete(verifBoots, app)
+	verifBootMu.Unlock()
+	if b == nil {
+		return false
+	}
+	app.genesisDoc = b.genesis
+	app.Context.witnesses.Init(chain.ETHEREUM, app.Context.node.ValidatorAddress())
+	app.Context.SetBlockStore(b.blockStore)
+	return true
+}
+
+func verifNotePanic(r interface{}) {
+	atomic.AddInt64(&verifPanicCt, 1)
+}
+
+// VerifPanics returns how many panics handlePanic has recovered in this process.
+func VerifPanics() int64 {
+	return atomic.LoadInt64(&verifPanicCt)
+}
+
+// VerifCloseAll closes every database the application context opened,
+// including the job and lock script stores that Close() leaves open.
+func (app *App) VerifCloseAll() {
+	defer func() { _ = recover() }()
+	func() {
+		defer func() { _ = recover() }()
+		app.Context.Close()
+	}()
+	if app.Context.jobStore != nil {
+		func() {
+			defer func() { _ = recover() }()
+			app.Context.jobStore.Close()
+		}()
+	}
+	if app.Context.lockScriptStore != nil {
+		func() {
+			defer func() { _ = recover() }()
+			app.Context.lockScriptStore.Close()
+		}()
+	}
+}
+
+// VerifJobStore exposes the node-local job store (not part of the chain state).
+func (app *App) VerifJobStore() interface{} { return app.Context.jobStore }
